@@ -48,10 +48,22 @@ def processTheory (t : StrongTask) (fuel : Nat) (prog : Program) : Option Theory
   let th ← if t.simplify then simplifyTheory .classic fuel th else some th
   some (if t.breakEq then breakEquivalencesTheory th else th)
 
+/-- the problem of one direction before symbol renaming and naming -/
+def directionProblem0 (name : String) (tr ax cj : Theory) (axPre cjPre : String) : Problem :=
+  (((⟨name, []⟩ : Problem).addTheory tr "transition_axiom_" .axiom).addTheory ax axPre .axiom).addTheory
+    cj cjPre .conjecture
+
 /-- the problem of one direction before decomposition -/
 def directionProblem (name : String) (tr ax cj : Theory) (axPre cjPre : String) : Problem :=
-  ((((⟨name, []⟩ : Problem).addTheory tr "transition_axiom_" .axiom).addTheory ax axPre .axiom).addTheory
-    cj cjPre .conjecture).renameConflictingSymbols.uniqueNames
+  (directionProblem0 name tr ax cj axPre cjPre).renameConflictingSymbols.uniqueNames
+
+/-- pairs of symbolic constants whose order `rename_conflicting_symbols` changes, per direction -/
+def strongRenameIssues (t : StrongTask) (fuel : Nat) : Option (List (String × String)) := do
+  let tr := transitionAxioms t
+  let left ← processTheory t fuel t.left
+  let right ← processTheory t fuel t.right
+  some ((directionProblem0 "forward" tr left right "left_" "right_").renameOrderIssues ++
+    (directionProblem0 "backward" tr right left "right_" "left_").renameOrderIssues)
 
 /-- (The Rust code interleaves the two programs' steps; in the `Option` monad the order of the
     independent steps is immaterial: the result is `none` iff some formula did not converge.) -/
